@@ -110,6 +110,7 @@ func ite[T any](c bool, a, b T) T { if c { return a }; return b }
 func buflen(b any) int { return 0 }
 func bufbyte(b any, i int) byte { return 0 }
 func arrayOf(x any) int { return 0 }
+func prefix[T any](a T, n int) T { return a }
 func lower(s string) string { return s }
 func joinHostPort(h, p string) string { return h }
 func modtarget(x any) bool { return true }
